@@ -5,4 +5,7 @@ CHECKS = {
                 text="every clause (gradient = D(function), hessian = D(gradient) and symmetric, Kronecker, partition of unity, monomial reproduction, bubbles vanish on faces) is a polynomial identity in the reference coordinates generated from the real methods and discharged for all points; Lagrange-based elements in tolerance form (float Vandermonde inverse)",
                 note="A1 floats as exact rationals; tolerance form 1e-10 for Lagrange-based elements; completeness by linearity over the monomial basis (paper lemma); verifier kernel trusted (canaries, selftest)"),
 }
+CHECKS["C05"] = dict(engine="ground exact-rational", technique="contracts on the scheme constructors; tables lifted to exact rationals; ground obligations (monomial exactness, domain, weights, boundary/permute relations) decided in exact rational arithmetic, exhaustive over scheme x order x dim x permute",
+    text="the constructors have no inputs, so every clause is a finite set of ground obligations generated from the tables the real constructors return and decided exactly; all polynomials follow from the monomials by linearity",
+    note="tolerance tau=1e-12*|domain| (1e-11 for the 12-digit sphere table) on the exact-rational reading of the floats; linearity lemma; leggauss not assumed (checked on its domain of use)")
 NOT_APPLICABLE = {f"C{n:02d}": _PENDING for n in range(1, 21)}
